@@ -274,8 +274,8 @@ func runC13(tw *TraceWriter, id int, c *Case) {
 }
 
 // dict key / value expectations of the MC_Render dict universe, with package qualifiers normalised to paths
-var keyText = map[string]string{"a": "a", "ab": "ab", "a1": "a1", "10": "10", "9": "9", "1": "1", "f1": "f()", "f2": "f()", "qx": "x/d.K", "qy": "y/d.K", "sk1": "Circle{R: 1}", "sk2": "Square{A: 2}"}
-var keyNo = map[string]string{"a": "710", "ab": "711", "a1": "718", "10": "719", "9": "720", "1": "712", "f1": "713", "f2": "714", "qx": "715", "qy": "716", "null": "717", "sk1": "721", "sk2": "722"}
+var keyText = map[string]string{"s1": "\"user\"", "s2": "\"user id\"", "s3": "\"user!\"", "a": "a", "ab": "ab", "a1": "a1", "10": "10", "9": "9", "1": "1", "f1": "f()", "f2": "f()", "qx": "x/d.K", "qy": "y/d.K", "sk1": "Circle{R: 1}", "sk2": "Square{A: 2}"}
+var keyNo = map[string]string{"s1": "723", "s2": "724", "s3": "725", "a": "710", "ab": "711", "a1": "718", "10": "719", "9": "720", "1": "712", "f1": "713", "f2": "714", "qx": "715", "qy": "716", "null": "717", "sk1": "721", "sk2": "722"}
 
 func expectedPairs(c *Case) []string {
 	out := []string{}
@@ -367,7 +367,9 @@ func runC16(tw *TraceWriter, id int, c *Case, repeats int) {
 	body := []*Node{c.Tree}
 	b := NewBuilder()
 	setup := func(f *jen.File) {
-		if c.Alias != "" {
+		if strings.HasPrefix(c.Alias, "@") {
+			f.PackagePrefix = c.Alias[1:]
+		} else if c.Alias != "" {
 			f.ImportAlias("x/d", c.Alias)
 		}
 	}
